@@ -9,18 +9,20 @@ import json
 
 
 def op_window(excerpt_lines):
-    """Split a job's trace (list of json strings) into operations: list of lists of events."""
-    ops, cur = [], None
+    """Split a job's trace (list of json strings) into operations: list of lists of events.
+    Events are grouped per logical thread (`t`), so traces of parallel runs work as well."""
+    ops, cur = [], {}
     for l in excerpt_lines:
         try:
             e = json.loads(l)
         except Exception:
             continue
+        t = e.get("t", 0)
         if e.get("e") == "op":
-            cur = [e]
-            ops.append(cur)
-        elif cur is not None:
-            cur.append(e)
+            cur[t] = [e]
+            ops.append(cur[t])
+        elif t in cur:
+            cur[t].append(e)
     return ops
 
 
@@ -109,6 +111,8 @@ SIGNATURES = {
     "C13": [("fb-cycle-member-executed-without-cycle-detection", sig_c13_participant_reexecuted),
             ("fb-function-leaves-cycle-dependents-validated", sig_c13_leaves_cycle)],
 }
+# C18 requires the single-threaded results of C12/C13 under concurrency: the same two findings show there
+SIGNATURES["C18"] = SIGNATURES["C13"]
 
 
 def classify(pid, job, job_trace_lines):
